@@ -1,4 +1,5 @@
 import ast
+from keyword import iskeyword
 from typing import Dict, List, Optional, Tuple, cast
 
 from graphql import (
@@ -136,7 +137,8 @@ def parse_input_const_value_node(
         return generate_constant(None)
 
     if isinstance(node, EnumValueNode):
-        return generate_name(f"{field_type}.{node.value}")
+        member = node.value + "_" if iskeyword(node.value) else node.value
+        return generate_name(f"{field_type}.{member}")
 
     if isinstance(node, ListValueNode):
         list_ = generate_list(
